@@ -14,7 +14,7 @@ func init() {
 		Explanation: "Decides that every offset the library builds is one untorn resume point: (R1) in each snapshot-bound handler the delivery is dominated by the true branch of the membership check applied to the very value that becomes Offset.SeqNo, the snapshot and vbUUID are read from the observer inside that region, and SeqNoAdvanced builds [s,s]/s from one value; " +
 			"(R2) the membership check returns true iff a snapshot is present and Start ≤ seq ≤ End, panics otherwise and never returns false (exhaustive over the order abstraction); " +
 			"(R3) snapshot markers and offsets are replaced, never mutated: no in-place store to their fields module-wide and every assignment of observer.currentSnapshot is a fresh literal; " +
-			"(R4) the branch id is written only by SetVbUUID, called only under err==nil of an open-stream callback with failOverLogs[0].VbUUID; (R5) the persisted document is built field by field from one offset (C02.R2). " +
+			"(R4) the branch id is written only by SetVbUUID, called only under err==nil of an open-stream callback with failOverLogs[0].VbUUID; (R5) the persisted document is built field by field from one offset (C02.R2); (R7) the snapshot-announcing handlers install the snapshot iff the gate passes and under no other condition (exhaustive). " +
 			"Not decided: whether the server's markers are themselves well-formed.",
 		Assumptions: []string{"gocbcore delivers the snapshot marker of a snapshot before its items on the same goroutine"},
 		Rules: []RuleDef{
@@ -26,6 +26,7 @@ func init() {
 				gateArgsRule(c, id, observerInfo(c, id))
 				c02r4(c, id)
 			}},
+			{ID: "C06.R7", Text: "the announced snapshot is installed under exactly the gate: the marker and seqno-advanced handlers assign currentSnapshot (and hand the event on once) ⇔ canForward, independent of any other observer state", Run: markerInstall},
 			{ID: "C06.R5", Text: "the persisted document is built field by field from one offset (same rule as C02.R2)", Run: c02r2},
 		},
 	})
